@@ -83,6 +83,14 @@ try:
                 print(out[-2500:])
             if rc == 1:
                 break
+    # a change filed under one property may only show under the conditions
+    # another property quantifies over (SEED_ALSO=C05: run that check too)
+    for other in [o for o in os.environ.get("SEED_ALSO", "").split(",") if o]:
+        t0 = time.time()
+        rc, out = sh("./check %s quick" % other, cwd="/verif", env=dict(ENV, VERIF_REPO=WT, VERIF_SEED=os.environ.get("VERIF_SEED", "1")), timeout=6 * 3600)
+        keys = sorted(set(re.findall(r"key=(\S+)", out)))
+        res["checks"]["quick-of-" + other] = {"rc": rc, "detected": rc == 1, "keys": keys, "wall_s": round(time.time() - t0, 1)}
+        print("check %s quick -> rc=%d keys=%s" % (other, rc, keys))
     # evidence files were rewritten by the mutated run: restore committed ones
     sh("git checkout -- evidence 2>/dev/null", cwd="/verif")
     for root, _, files in os.walk("/verif/replays"):
